@@ -165,7 +165,7 @@ func cmdProp(args []string) {
 			}
 			// the synchronisation obligations of a function (guard:*, lock:*) belong to every property the function is
 			// verified for: all its other proofs assume the lock discipline
-			if len(ob.Props) == 0 || hasProp(ob.Props, *id) || ((ob.Kind == "guard" || ob.Kind == "lock") && inC09Package(k)) {
+			if len(ob.Props) == 0 || hasProp(ob.Props, *id) || ((ob.Kind == "guard" || ob.Kind == "lock" || strings.HasSuffix(ob.Kind, ":holds") || strings.HasSuffix(ob.Kind, ":deadlock")) && inC09Package(k)) {
 				mine = append(mine, ob)
 			}
 		}
